@@ -23,7 +23,7 @@ RULE = (
     "is imported after the use, or with the unresolved reference inside a directly / transitively imported "
     "module; must return Err (no exception, no tree) whose message chain names "
     "the missing type and the enclosing struct and whose rendered diagnostic cites the line of the "
-    "offending reference.  distinct = (mutation kind, container path of the offending reference, "
+    "offending reference; a third of the forward / undeclared cases is repeated with a second fault behind it (a type nested 150..700 levels), judged on rejection only.  distinct = (mutation kind, container path of the offending reference, "
     "kind of referenced declaration)."
 )
 ASSUMPTIONS = [
@@ -280,6 +280,27 @@ def one_schema(run, i, tmp):
         st = S.Style(run.rng("mstyle", i, kind)) if i % 3 else S.Style()
         mtext = S.print_schema(m, st)
         judge_negative(run, m, mtext, kind, lambda: PC.parse_string(mtext))
+        if kind in ("forward", "undeclared") and i % 3 == 0:
+            # the same unresolved reference with a SECOND fault behind it: a type nested deeper than the
+            # transformer can walk.  Which of the two errors is reported is the front end's choice; that
+            # the schema is rejected (no tree, no exception) is not.
+            depth = rr.choice([150, 250, 300, 350, 450, 700])
+            t = ("u", 8)
+            for _ in range(depth):
+                t = ("opt", t) if rr.random() < 0.5 else ("dyn", t)
+            deep = m + [{"kind": "struct", "name": "DeepTail%d" % i, "fields": [{"name": "d", "id": 0, "type": t}]}]
+            dtext = S.print_schema(deep)
+            case2 = {"mutation": kind + " + a type nested %d levels behind it" % depth, "text": dtext[:3000]}
+            try:
+                res2, _lg = PC.parse_string(dtext)
+                if res2.is_ok():
+                    walk_tree(run, res2.unwrap(), case2)
+                    run.violation("schema with a %s type reference was accepted once a deeply nested type follows it" % kind, case2)
+                else:
+                    run.count("negative_with_second_fault_rejected")
+                    run.case(sig="neg2|%s|depth%d" % (kind, depth))
+            except BaseException as e:
+                run.violation("%s reference followed by a deeply nested type raised %s: %s" % (kind, type(e).__name__, str(e)[:200]), case2)
     # module variants: the first half of the declarations lives in a module
     if i % 4 == 0 and len(decls) >= 2:
         cut = r.randint(1, len(decls) - 1)
